@@ -233,6 +233,35 @@ pub fn builder_case(ctx: &mut Ctx, regs: &[(bool, usize)], bytes: &[u8]) {
     ctx.line(&format!("builder\t{}\t{}\t{}", regs_str(regs), hex(bytes), r));
 }
 
+/// The decoder driven leniently: closures fail for the items picked by `mask` and the caller goes on.  Each call
+/// consumes one item whether or not its closure succeeds, so every later item is still handed exactly its own bytes.
+pub fn builder_lenient_case(ctx: &mut Ctx, regs: &[(bool, usize)], bytes: &[u8], mask: u64) {
+    let res = catch(|| -> Result<Vec<Option<Vec<u8>>>, DecodeError> {
+        let mut b = SszDecoderBuilder::new(bytes);
+        for (f, l) in regs.iter() {
+            b.register_type_parameterized(*f, *l)?;
+        }
+        let mut d = b.build()?;
+        let mut out = vec![];
+        for i in 0..regs.len() {
+            let fail = (mask >> (i % 64)) & 1 == 1;
+            let r: Result<Vec<u8>, DecodeError> =
+                d.decode_next_with(|s| if fail { Err(DecodeError::BytesInvalid("refused by the caller".into())) } else { Ok(s.to_vec()) });
+            out.push(r.ok());
+        }
+        Ok(out)
+    });
+    let r = match res {
+        Caught::Val(Ok(slices)) => format!(
+            "ok {}",
+            slices.iter().map(|s| match s { Some(x) => hex(x), None => "x".to_string() }).collect::<Vec<_>>().join(",")
+        ),
+        Caught::Val(Err(_)) => "err".into(),
+        Caught::Panic => "panic".into(),
+    };
+    ctx.line(&format!("builderl\t{}\t{}\t{}\t{}", regs_str(regs), hex(bytes), mask, r));
+}
+
 pub fn builders(ctx: &mut Ctx, count: usize, max_items: usize) {
     // corpus-like fixed cases
     builder_case(ctx, &[], &[]);
@@ -258,15 +287,53 @@ pub fn builders(ctx: &mut Ctx, count: usize, max_items: usize) {
                 r.bytes(n)
             }
         };
+        let lenient = r.chance(1, 4);
+        let mask = (r.next() & r.next()) >> 1;
         ctx.rng = r;
         builder_case(ctx, &regs, &bytes);
+        if lenient && !regs.is_empty() {
+            builder_lenient_case(ctx, &regs, &bytes, mask);
+        }
     }
 }
 
 // ---------------------------------------------------------------------------------------------
 // Encoder histories
 
+/// One encoder driven through two rounds (fields, `finalize`, more fields, `finalize`): the second round must write
+/// exactly what a fresh encoder with the same fixed length would, whatever the first round emitted.
+fn encoder_two_rounds(ctx: &mut Ctx) {
+    let mut r = ctx.rng.clone();
+    let plen = *r.pick(&[0usize, 0, 1, 4, 9]);
+    let prefix = r.bytes(plen);
+    let mut rounds: Vec<Vec<(bool, Vec<u8>)>> = vec![];
+    for _ in 0..2 {
+        let n = r.below(5);
+        rounds.push((0..n).map(|_| { let f = r.chance(1, 2); let k = r.below(5); (f, r.bytes(k)) }).collect());
+    }
+    let natural: usize = rounds[0].iter().map(|(f, b)| if *f { b.len() } else { 4 }).sum();
+    let nf = if r.chance(3, 4) { natural } else { r.below(24) };
+    ctx.rng = r;
+    let mut buf = prefix.clone();
+    {
+        let mut e = SszEncoder::container(&mut buf, nf);
+        for items in &rounds {
+            for (f, b) in items {
+                e.append_parameterized(*f, |out| out.extend_from_slice(b));
+            }
+            e.finalize();
+        }
+    }
+    let show = |items: &Vec<(bool, Vec<u8>)>| if items.is_empty() { "-".to_string() } else {
+        items.iter().map(|(f, b)| format!("{}:{}", if *f { "f" } else { "v" }, hex(b))).collect::<Vec<_>>().join(",")
+    };
+    ctx.line(&format!("encoder2\t{}\t{}\t{}\t{}\t{}", hex(&prefix), nf, show(&rounds[0]), show(&rounds[1]), hex(&buf)));
+}
+
 pub fn encoders(ctx: &mut Ctx, count: usize) {
+    for _ in 0..std::cmp::max(4, count / 8) {
+        encoder_two_rounds(ctx);
+    }
     for _ in 0..count {
         let mut r = ctx.rng.clone();
         let plen = *r.pick(&[0usize, 0, 1, 3, 4, 7, 255]);
